@@ -478,7 +478,12 @@ R.contract(
         "len(self.host_cid) < 256 and len(self._peer_cid.cid) < 256 and len(self._peer_token) < 4611686018427387904",
         "0 <= self._packet_number",
     ],
-    raises={"IndexError": "len(self._network_paths) == 0", "MemoryError": None},
+    # C05 "afterwards the ... transmit ... calls keep returning normally": NO IndexError - a connection that has not accepted
+    # a packet yet (a server whose first datagram was discarded) has no network path and sends nothing.  (The pinned tree
+    # indexed _network_paths[0] unconditionally; an earlier version of this contract had copied that from the code as
+    # raises={"IndexError": "len(self._network_paths) == 0"} - found by a round-3 mutation agent reading the code,
+    # tools/repro/c05_transmit_without_network_path.py, repaired in /repo.)
+    raises={"MemoryError": None},
     stop_at=["epoch_packet_types = []", "if not self._handshake_confirmed:#1"],
     cuts={
         "if not self._handshake_confirmed:#1": [
